@@ -47,8 +47,10 @@ TClone == /\ Is("Clone") /\ Adv
           /\ SemEq(Ev.before, Ev.val) /\ SemEq(Ev.cl, Ev.val) /\ Ev.shared = 0
           /\ SemEq(Ev.after, Ev.val)
           /\ SemEq(Ev.cl2, Ev.val) /\ SemEq(Ev.after2, Ev.cl2)
+\* the same instance cloning the same value in several goroutines at once: every clone equal to the original, no two clones share storage
+TCloneConc == Is("CloneConc") /\ Adv /\ Ev.bad = 0 /\ Ev.sharedpairs = 0
 TCase == Is("Case") /\ Adv
-TNext == (TCase \/ TEq \/ THash \/ TOrd \/ TSort \/ TClone) /\ UNCHANGED tvars4
+TNext == (TCase \/ TEq \/ THash \/ TOrd \/ TSort \/ TClone \/ TCloneConc) /\ UNCHANGED tvars4
 Z == [t |-> "int", n |-> 0]
 TInit == l = 1 /\ vu = 1 /\ va = Z /\ vb = Z /\ vc = Z
 TSpec == TInit /\ [][TNext]_<<l, tvars4>>
